@@ -569,7 +569,7 @@ Lemma mk_labware_unfold a :
                                         (a_names a)
                         then Err EValue
                         else
-                          match initial_composition (a_name a) (1 <? rows)%nat (rows * cols)
+                          match initial_composition (a_name a) (1 <? rows * cols)%nat (rows * cols)
                                   (a_names a) (real_ids rows cols) (map Qred vs) 0 [] with
                           | Err e => Err e
                           | Ok comp =>
@@ -649,7 +649,7 @@ Record lw_built (a : lw_args) (L : labware) (rows cols : nat) (mn mx : Q) (vrows
   b_nonneg : forall v, In v vs -> (0 <= v)%Q;
   b_le_max : forall v, In v vs -> (v <= mx)%Q;
   b_names : forall w s, In (w, s) (a_names a) -> In w (real_ids rows cols);
-  b_comp : initial_composition (a_name a) (1 <? rows)%nat (rows * cols) (a_names a)
+  b_comp : initial_composition (a_name a) (1 <? rows * cols)%nat (rows * cols) (a_names a)
              (real_ids rows cols) (map Qred vs) 0 [] = Ok comp;
   b_L : L = {| lw_name := a_name a;
                lw_geom := {| g_rows := rows; g_cols := cols; g_vrows := vrows |};
@@ -940,7 +940,7 @@ Definition id_of (g : geom) (i : nat) : string := well_id (i / g_cols g) (i mod 
 
 (** the component that fills well [i] of a [Labware] initially *)
 Definition lw_comp_name (a : lw_args) (L : labware) (i : nat) : string :=
-  comp_name (a_name a) (1 <? g_rows (lw_geom L))%nat (a_names a) (id_of (lw_geom L) i).
+  comp_name (a_name a) (1 <? g_rows (lw_geom L) * g_cols (lw_geom L))%nat (a_names a) (id_of (lw_geom L) i).
 
 Lemma mk_labware_composition a L : mk_labware a = Ok L ->
   let n := n_wells (lw_geom L) in
@@ -1572,7 +1572,7 @@ Definition plate_component (a : lw_args) (L : labware) (i : nat) : string :=
   let w := well_id (i / g_cols (lw_geom L)) (i mod g_cols (lw_geom L)) in
   match assoc_get w (a_names a) with
   | Some (Some s) => s
-  | _ => if (1 <? g_rows (lw_geom L))%nat then (a_name a ++ "." ++ w)%string else a_name a
+  | _ => if (1 <? g_rows (lw_geom L) * g_cols (lw_geom L))%nat then (a_name a ++ "." ++ w)%string else a_name a
   end.
 
 Lemma lw_comp_name_eq a L i : lw_comp_name a L i = plate_component a L i.
